@@ -16,7 +16,8 @@ TAILS = {"", "77", "90", "95", "03", "05", "08", "18", "or", "pp"}
 def _suffix_builder(ctx):
     """The function folding the default suffix pattern + user suffixes."""
     # the template with a hole for the user's suffixes whose constant part spells the `.f..` suffix family
-    hits = [rx for rx in ctx.p.inline if rx.func is not None and any(isinstance(p, rex.Hole) for p in rx.template) and re.search(r"\\\.(\[fF\]|f|F)[(\[]", rx.text)]
+    fam = re.compile(r"\\?\.(\[fF\]|f|F)[(\[]")
+    hits = [rx for rx in ctx.p.inline if rx.func is not None and any(isinstance(p, rex.Hole) for p in rx.template) and fam.search(rx.text)]
     if not hits:
         raise AnalysisError("suffix pattern builder not found")
     return hits[0]
